@@ -419,6 +419,11 @@ class Concrete:
                 script.append(('q', self.filler_cmd()))
         if nold and u_old == maxuid:
             script += prime
+        if self.rng.random() < 0.5:
+            # a message with a HIGHER UID than any of the view that session a sees and then
+            # expunges (announced): "*" and "n:*" must stand for the view's own maximum
+            fillers.append(maxuid + 1)
+            script.append(('q', self.filler_cmd()))
         script.append(('a', b'SELECT INBOX'))
         if fillers:
             script.append(('a', b'UID EXPUNGE ' + ','.join(map(str, fillers)).encode()))
